@@ -264,11 +264,89 @@ def r6_4(repo: Repo) -> RuleResult:
     return rr
 
 
-RULES = [r6_1, r6_2, r6_3, r6_4]
+NG = "vectorizers/ngram_vectorizer.py"
+
+
+def _key_kind(e: ast.AST) -> Optional[str]:
+    """'tuple' for tuple(...) / a tuple display, 'label' for a value read out of a token dictionary."""
+    if isinstance(e, ast.Tuple) or (isinstance(e, ast.Call) and norm(e.func) == "tuple"):
+        return "tuple"
+    if isinstance(e, ast.Subscript) and "token_dictionary" in norm(e.value):
+        return "label"
+    return None
+
+
+def r6_5(repo: Repo) -> RuleResult:
+    """Writer / reader agreement on the *kind of key* of NgramVectorizer.column_label_dictionary_: fit builds it with
+    bare token labels under one condition and with tuples of labels otherwise; every look-up must form a bare key
+    under that same condition and a tuple otherwise, or whole families of n-grams are never found (and silently
+    dropped by the `except KeyError`)."""
+    from ..model import is_self_attr, walk_no_nested
+    from .common import ancestors, parents_map
+
+    rr = RuleResult("R6.5", "look-ups into the n-gram column dictionary form bare / tuple keys under the condition under which fit built bare / tuple keys", floor=2)
+    c = repo.module(NG).classes.get("NgramVectorizer")
+    if c is None:
+        raise AnalysisError("R6.5: NgramVectorizer not found")
+    fit = repo.resolve_method(c, "fit")
+    D = "column_label_dictionary_"
+    # writers: the if / elif chain in fit that assigns the dictionary
+    label_cond = None
+    tuple_seen = False
+    pm = parents_map(fit.node)
+    for n in walk_no_nested(fit.node):
+        if isinstance(n, ast.Assign) and any(is_self_attr(t, D) for t in n.targets):
+            v = n.value
+            if is_self_attr(v) and "token_dictionary" in v.attr:
+                # keys are the bare labels of the token dictionary
+                iff = pm.get(id(n))
+                if not (isinstance(iff, ast.If) and any(n is s for s in iff.body)):
+                    raise AnalysisError("R6.5: the bare-label arm of the dictionary construction is not the body of an if")
+                label_cond = norm(iff.test)
+            elif isinstance(v, ast.DictComp) and _key_kind(v.key) == "tuple":
+                tuple_seen = True
+    if label_cond is None or not tuple_seen:
+        raise AnalysisError("R6.5: bare-label / tuple arms of the column dictionary construction not recognised in fit")
+    # readers
+    n_sites = 0
+    for f in (fit, repo.resolve_method(c, "transform")):
+        pmf = parents_map(f.node)
+        for n in walk_no_nested(f.node):
+            if not (isinstance(n, ast.Subscript) and is_self_attr(n.value, D) and isinstance(n.ctx, ast.Load) and isinstance(n.slice, ast.Name)):
+                continue
+            key = n.slice.id
+            defs = [a for a in walk_no_nested(f.node) if isinstance(a, ast.Assign) and any(isinstance(t, ast.Name) and t.id == key for t in a.targets)]
+            kinds = {}
+            if len(defs) < 2:
+                continue  # a key with one form (e.g. the mask n-gram, membership-tested): no bare / tuple choice to agree on
+            for a in defs:
+                k = _key_kind(a.value)
+                iff = pmf.get(id(a))
+                if k is None or not isinstance(iff, ast.If):
+                    raise AnalysisError("R6.5: key `%s` of the look-up in %s is not built by a bare/tuple conditional" % (key, f.qualname))
+                arm = "body" if any(a is s_ for s_ in iff.body) else "else"
+                kinds[(k, arm)] = norm(iff.test)
+            n_sites += 1
+            construct = "self.%s[<bare-or-tuple key>]" % D  # no local names: findings are keyed by construct
+            lab = [(arm, t) for (k, arm), t in kinds.items() if k == "label"]
+            tup = [(arm, t) for (k, arm), t in kinds.items() if k == "tuple"]
+            if len(lab) == 1 and len(tup) == 1 and lab[0] == ("body", label_cond) and tup[0][0] == "else":
+                rr.ok(f, construct, "bare key under `%s`, tuple key otherwise - as the dictionary was built" % label_cond, n.lineno)
+            else:
+                rr.bad(f, construct,
+                       "the key is a bare label under `%s` but the dictionary has bare-label keys under `%s` (tuples otherwise): n-grams for "
+                       "which the two conditions differ (1-grams of 'subgrams' mode with ngram_size > 1) are never found and their counts "
+                       "are dropped by the except KeyError" % (lab[0][1] if lab else "?", label_cond), n.lineno)
+    if n_sites < 2:
+        raise AnalysisError("R6.5: only %d look-up sites into %s found" % (n_sites, D))
+    return rr
+
+
+RULES = [r6_1, r6_2, r6_3, r6_4, r6_5]
 CLAIM = (
     "R6.2 the skip-gram decode modulus equals the encode multiplier (symbolic, with the length fact len(window_sizes) = len(frequencies) + 1 derived from both registered window functions); R6.1 a small kinds checker infers, from the fit path, whether each fitted dictionary attribute maps labels to indices or "
     "indices to labels (dict(zip(A, range)), enumerate comprehensions, items() flips, .copy(), returns of the preprocessing "
-    "functions) and requires every other assignment to the same attribute - in particular in NgramVectorizer.__add__ - to have the same kind (and the kind its documented name declares); R6.3 ngrams_of enumerates sequence[i : i + n] for every i with the guard i + n <= len(sequence) (symbolic), subgram lengths 1..n; R6.4 `__add__` mutates neither operand (alias + effect analysis)."
+    "functions) and requires every other assignment to the same attribute - in particular in NgramVectorizer.__add__ - to have the same kind (and the kind its documented name declares); R6.3 ngrams_of enumerates sequence[i : i + n] for every i with the guard i + n <= len(sequence) (symbolic), subgram lengths 1..n; R6.4 `__add__` mutates neither operand (alias + effect analysis); R6.5 writer/reader agreement on the kind of key (bare label vs tuple) of the n-gram column dictionary and on the condition selecting it."
 )
 NOT_DECIDED = (
     "the counts themselves and EdgeList duplicate summation."
